@@ -263,6 +263,26 @@ def extra_reference(func, env, res):
     return None if v == form(want) else f"the definition gives {form(want)}"
 
 
+def canon_model(d):
+    """a model value dump in the enumeration form the implementation side is reported in (sets sorted like proto.enum_form)"""
+    try:
+        return proto.enum_form(proto.from_ckl(proto.to_ckl(undump(d)), sorted_enum=True))
+    except Exception:  # noqa
+        return d
+
+
+def undump(d):
+    """session dump (already enum_form for scalars) -> abstract value"""
+    t = d[0]
+    if t == 'd':
+        return ('d', proto.me_to_float(d[1], d[2]))
+    if t in ('l', 'S'):
+        return (t, tuple(undump(x) for x in d[1]))
+    if t == 'm':
+        return ('m', tuple((undump(k), undump(v)) for k, v in d[1]))
+    return d
+
+
 def unform(x):
     """enum_form value -> abstract value"""
     t = x[0]
@@ -320,6 +340,36 @@ def run(ctx):
                     ctx.disagreements += 1
                     ctx.violation("correspondence", f"`{src}` with {rp['vars']}: model {mm}, implementation {r}",
                                   dict(rp, correspondence="Ckl.Lib." + func + " vs implementation"))
+    # ---------------- the repository's own library source, run by the model evaluator on the real base environment
+    if ctx.build.ok:
+        from harness import session
+        idx = [i for i, c in enumerate(cases) if real[i][0] in ('ok', 'err')]
+        if not ctx.thorough:
+            idx = ctx.rng.sample(idx, min(len(idx), 6000))
+        progs = []
+        for i in idx:
+            func, req, src, env = cases[i]
+            progs.append(["".join(f"def {k} = {proto.to_ckl(v)}; " for k, v in env.items()) + src])
+        outs, why = session.run_lib_sessions(progs, legacy=True)
+        if outs is None:
+            ctx.disagreements += 1
+            ctx.violation("correspondence", f"the model evaluator cannot build the base environment from the bundled sources: {why[:300]}",
+                          {"op": "libsetup", "correspondence": "Ckl.eval on base.ckl / legacy.ckl vs get_base_environment"})
+        else:
+            for i, m in zip(idx, outs):
+                func, req, src, env = cases[i]
+                mo = m[0][0]
+                if mo[0] == 'fail':
+                    ctx.count("library_source_model_abstains")
+                    continue
+                ctx.count("library_source_model_checked")
+                r = real[i]
+                same = (mo[0] == 'rt' and r[0] == 'err') or (mo[0] == 'val' and r[0] == 'ok' and canon_model(mo[1]) == r[1])
+                if not same:
+                    ctx.disagreements += 1
+                    ctx.violation("correspondence", f"`{src}` with {({k: proto.show(v) for k, v in env.items()})}: the model evaluator running the bundled "
+                                  f"library source gives {mo[:2]}, the implementation {r}",
+                                  {"op": func, "program": progs[idx.index(i)][0], "correspondence": "Ckl.eval on the bundled .ckl sources vs Interpreter"})
     for (func, key), results in perm_groups.items():
         ctx.count("permutation_classes")
         if len(results) > 1:
